@@ -28,7 +28,7 @@ class Mutant:
 
 
 def _one(args):
-    pid, repo, m = args
+    pid, repo, m, base_keys = args
     try:
         src = (Path(repo) / m.file).read_text(encoding="utf-8")
     except FileNotFoundError:
@@ -46,7 +46,8 @@ def _one(args):
         return m.name, "error", str(e)
     except Exception as e:  # pragma: no cover
         return m.name, "crash", repr(e)
-    rules = sorted({f.rule for f in ctx.findings})
+    # only findings that the unmutated tree does not already have count as detection
+    rules = sorted({f.rule for f in ctx.findings if f.key not in base_keys})
     if any(r.startswith(m.expect) for r in rules):
         return m.name, "caught", ",".join(rules)
     return m.name, "missed", ",".join(rules)
@@ -58,7 +59,13 @@ def run_mutants(pid: str, repo: Path, jobs: int = 16) -> dict:
     res = {"run": 0, "caught": 0, "stale": 0, "missed": [], "stale_names": [], "detail": []}
     if not mutants:
         return res
-    work = [(pid, str(repo), m) for m in mutants]
+    try:
+        base = Ctx(pid, Model(Path(repo)), "quick", True)
+        mod.check(base)
+        base_keys = frozenset(f.key for f in base.findings)
+    except AnalysisError:
+        base_keys = frozenset()
+    work = [(pid, str(repo), m, base_keys) for m in mutants]
     if jobs > 1 and len(work) > 2:
         with mp.get_context("fork").Pool(min(jobs, len(work))) as pool:
             results = pool.map(_one, work)
